@@ -635,3 +635,97 @@ pub fn gen(seed: u64, thorough: bool) {
         out.line(&format!("c15 {}", gen_history(&mut r, len, k % 5 == 0)));
     }
 }
+
+// ---------------------------------------------------------------------------------------
+// c15q — read-only queries of the entry API and of array::IntoIter against the vector / map reference
+// case: `c15q <hexdoc>`; every array and object inside the document (parsed, and a promoted copy) is queried
+
+fn q_value(v: &Value, promoted: bool, bad: &mut Vec<String>) {
+    let mut v = v.clone();
+    if promoted {
+        if v.is_object() {
+            let _ = v.as_object_mut();
+        } else if v.is_array() {
+            let _ = v.as_array_mut();
+        }
+    }
+    if let Some(a) = v.as_array() {
+        let reference: Vec<String> = a.iter().map(|x| sonic_rs::to_string(x).unwrap()).collect();
+        for k in 0..=reference.len().min(4) {
+            let tag = format!("intoiter(len={},next*{})", reference.len(), k);
+            let r = std::panic::catch_unwind(std::panic::AssertUnwindSafe(|| {
+                let mut it = a.clone().into_iter();
+                for _ in 0..k {
+                    let _ = it.next();
+                }
+                let s1: Vec<String> = it.as_slice().iter().map(|x| sonic_rs::to_string(x).unwrap()).collect();
+                let s2: Vec<String> = it.as_mut_slice().iter().map(|x| sonic_rs::to_string(x).unwrap()).collect();
+                let s3: Vec<String> = AsRef::<[Value]>::as_ref(&it).iter().map(|x| sonic_rs::to_string(x).unwrap()).collect();
+                let n = it.len();
+                let rest: Vec<String> = it.map(|x| sonic_rs::to_string(&x).unwrap()).collect();
+                (s1, s2, s3, n, rest)
+            }));
+            match r {
+                Ok((s1, s2, s3, n, rest)) => {
+                    let want = &reference[k.min(reference.len())..];
+                    if s1 != want { bad.push(format!("{}.as_slice={:?}", tag, s1)); }
+                    if s2 != want { bad.push(format!("{}.as_mut_slice={:?}", tag, s2)); }
+                    if s3 != want { bad.push(format!("{}.as_ref={:?}", tag, s3)); }
+                    if n != want.len() { bad.push(format!("{}.len={}", tag, n)); }
+                    if rest != want { bad.push(format!("{}.rest={:?}", tag, rest)); }
+                }
+                Err(_) => bad.push(format!("{}.panic", tag)),
+            }
+        }
+        for x in a.iter() {
+            q_value(x, promoted, bad);
+        }
+    } else if v.is_object() {
+        let keys: Vec<String> = v.as_object().unwrap().iter().map(|(k, _)| k.to_string()).collect();
+        let o = v.as_object_mut().unwrap();
+        for k in keys.iter().map(|s| s.as_str()).chain(["no-such-key"]) {
+            let r = std::panic::catch_unwind(std::panic::AssertUnwindSafe(|| o.entry(&k).key().to_string()));
+            match r {
+                Ok(got) if got == k => {}
+                Ok(got) => bad.push(format!("entry({:?}).key={:?}", k, got)),
+                Err(_) => bad.push(format!("entry({:?}).key.panic", k)),
+            }
+        }
+        let vals: Vec<Value> = o.iter().map(|(_, x)| x.clone()).collect();
+        for x in &vals {
+            q_value(x, promoted, bad);
+        }
+    }
+}
+
+pub fn run_q() {
+    let mut out = Out::new();
+    for line in lines_in() {
+        let p: Vec<&str> = line.split(' ').collect();
+        let t = unhex(p.get(1).copied().unwrap_or("-"));
+        out.line(&guarded(move || {
+            let mut bad = Vec::new();
+            if let Ok(v) = sonic_rs::from_slice::<Value>(&t) {
+                q_value(&v, false, &mut bad);
+                q_value(&v, true, &mut bad);
+            }
+            bad.truncate(6);
+            format!("q={}", if bad.is_empty() { "ok".to_string() } else { format!("BAD:{}", hex(bad.join(" ; ").as_bytes())) })
+        }));
+    }
+}
+
+pub fn gen_q(seed: u64, thorough: bool) {
+    let mut out = Out::new();
+    let mut r = Rng::new(seed ^ 0x15f);
+    for d in DOCS {
+        out.line(&format!("c15q {}", hex(d.as_bytes())));
+    }
+    for d in ["[[]]", "{\"x\":[]}", "[[1],[1,2],[1,2,3]]", "{\"a\":\"vvv\",\"b\":1}"] {
+        out.line(&format!("c15q {}", hex(d.as_bytes())));
+    }
+    let cfg = GenCfg { max_depth: 4, max_items: 5, ws: false, dup_keys: false, long_strings: false };
+    for _ in 0..(if thorough { 3000 } else { 300 }) {
+        out.line(&format!("c15q {}", hex(&gen_doc(&mut r, &cfg))));
+    }
+}
